@@ -9,7 +9,7 @@ for d in seeded/*/; do
   wt=/var/tmp/sweep.$$
   git -C /repo worktree add -q --detach $wt HEAD || exit 2
   if ! git -C $wt apply $PWD/$d/patch.diff 2>/dev/null; then echo "$id: patch no longer applies"; echo "patch no longer applies to HEAD" > $d/detected.txt; git -C /repo worktree remove --force $wt; continue; fi
-  out=$(VERIF_MAXVIOL=${VERIF_MAXVIOL:-2} VERIF_REPO=$wt ./check $prop quick 2>&1); rc=$?
+  out=$(VERIF_MAXVIOL=${VERIF_MAXVIOL:-2} VERIF_NO_MINIMISE=${SWEEP_NO_MINIMISE:-} VERIF_REPO=$wt ./check $prop quick 2>&1); rc=$?
   hits=0; [ $rc -eq 1 ] && hits=1
   for extra in ${SWEEP_EXTRA_SEEDS:-}; do
     VERIF_SEED=$extra VERIF_NO_REPLAY_VERIFY=1 VERIF_REPO=$wt ./check $prop quick >/dev/null 2>&1; [ $? -eq 1 ] && hits=$((hits+1))
